@@ -644,7 +644,10 @@ def yield_labels(t, out):
 
 
 NAMES = ['a', 'b', 'c', 'x', 'y', 'f', 'g', 'self', 'Cls', 'l', 'n', 'value']
-NUMBERS = ['0', '1', '2', '10', '0x1F', '0b11', '0o7', '1_000', '3.14', '1e3', '2j', '09j', '0_0', '.5', '5.', '1e-2j', '0XaB', '1E5']
+NUMBERS = ['0', '1', '2', '10', '0x1F', '0b11', '0o7', '1_000', '3.14', '1e3', '2j', '09j', '0_0', '.5', '5.', '1e-2j', '0XaB', '1E5',
+           # every combination of (integer part / none) x (fraction / none) x (exponent / none) x (imaginary suffix / none), underscores, capital markers
+           '.5j', '.5J', '.5e3', '.5e3j', '.0_1j', '.1e-5J', '5.j', '5.J', '5.e3', '5.e+3j', '0.5j', '1_0.0_1e1_0j', '1e+5', '1E-5J', '0e0', '00', '0_0.0', '0.', '.0',
+           '0B1_0', '0O1_7', '0X_f', '0x_F_f', '0b_1', '1_2_3', '9_9.9_9', '1j', '1J', '0j', '00j', '0_7j', '1_000_000', '0xdeadBEEF', '007j', '1.e1', '1.E1J']
 STRINGS = ['"s"', "'t'", '"""d"""', 'b"b"', "r'\\d'", 'R"\\x"', "BR'\\u12'", "rb'\\N'", 'u"u"', "'\\n'", '"\\x41"', "'\\N{DASH}'", "b'\\xff'",
            '"a" "b"', "Rb'\\x'", "'\\\n'", '"\\u00e9"']
 
